@@ -457,10 +457,12 @@ class RealWorld:
                 return "ok", "-"
             if o == "extend":
                 plain = _plain_only(ds._fields) and _plain_only(self.ds[op["e"]]._fields)
+                split = _split_sharing(ds._fields, self.ds[op["e"]]._fields) if self.tv else None
                 ds.extend(self.ds[op["e"]])
                 # two tables of plain columns: the columns of the result, for the list-of-records `extend`
                 if not plain:
-                    return "ok", "-"
+                    # (C09) was an array held under a name the other dataset lacks and under a name it has?
+                    return "ok", ("-" if split is None else "s1" if split else "s0")
                 return "ok", "x" + "/".join(f"{n}={rows_token(describe(a, self.tv)[3])}" for n, a in _columns(ds._fields, ""))
             if o == "merge":
                 ds.merge_with(*[self.ds[e] for e in op["es"]], sort_by=op.get("sort_by"))
@@ -483,6 +485,28 @@ class RealWorld:
         except Exception as e:  # mapped to a small enum, never propagated
             self.last_exc = e
             return "err", err_enum(e)
+
+
+def _split_sharing(fa, fb) -> bool:
+    """some array (not bool / float / text) of one dataset is the data of a field the other dataset lacks and of a field
+    it has (the situation of the listed finding `…:shared-array-one-name-missing`), read off the real datasets"""
+    la = [(n, f.fieldtype, f.data) for n, f in _leaf_fields(fa, "")]
+    lb = [(n, f.fieldtype, f.data) for n, f in _leaf_fields(fb, "")]
+
+    def one_sided(a, b):
+        nb = {n for n, _, _ in b}
+        return any(k not in ("bool", "float", "text") and n not in nb and any(o2 is o and n2 in nb for n2, _, o2 in a)
+                   for n, k, o in a)
+
+    return one_sided(la, lb) or one_sided(lb, la)
+
+
+def _leaf_fields(fields, prefix):
+    for name, f in fields.items():
+        if f.fieldtype == "collection":
+            yield from _leaf_fields(f.data._fields, prefix + name + ".")
+        else:
+            yield prefix + name, f
 
 
 def _plain_only(fields) -> bool:
